@@ -19,13 +19,15 @@ CLAIMS = {
  "C18": ("Serde.tla/SerdeMC.tla: TLC checks RoundTrip on the document model; every shape is serialised from the real crate with five element types through every serialiser x deserialiser pair (string, bytes, reader, value tree), and every window from view / mutable view", "6/C18"),
  "C19": ("Serde.tla/SerdeMC.tla: TLC enumerates the document grammar (every subset/order/duplication of fields, dimension tokens incl. 2^32..2^64, negative, fractional, string, null, data lengths around the product, ill-typed and non-array data), checks the visitor design (Layer B) refines the acceptance rule (Layer A), and every document is fed to the real deserialiser through all four transports, plain and with escaped keys", "6/C19"),
  "C20": ("Ctor.tla/CtorMC.tla: every construction request (6 constructors x dimensions incl. huge and wrap-adversarial x buffer lengths), ==/Hash/clone over all pairs of small arrays, and the conversion transitions of the history machine, executed on the real crate with Copy, owning and zero-sized elements", "6/C20"),
+ "C11": ("TooDee.tla fault transitions: TLC enumerates every (operation, shape, index, fault point k / lying length) in which caller-supplied code panics; the real crate is driven through each with the fault injected and caught, then used further; TLC validates the recorded trace against TooDeeTrace.tla, judging the post-fault state by the relation PostFaultOK and everything after it by the history machine", "6/C11"),
+ "C12": ("TooDee.tla leak transitions: every drain / by-value iterator leaked (mem::forget) at every consumption stage and every destructor-less borrow leaked; the recorded trace of the real crate (observation + further use + drop) is validated by TLC against TooDeeTrace.tla (PostFaultOK + no double drop then or later)", "6/C12"),
  "C13": ("Access.tla prim group: swap/swap_rows/swap_cols/row_pair_mut/fill with every index pair incl. equal, reversed, out-of-range and huge, on TooDee, TooDeeViewMut at every window and a third-party implementor using only trait defaults", "6/C13"),
  "C14": ("Access.tla copy group: the four copy_from/clone_from operations with sources around the destination size (owned/view/strided) and copy_within with every source rectangle x destination corner, on owned arrays and every window", "6/C14"),
  "C15": ("Access.tla move group: translate_with_wrap with every mid and both flips on every shape up to 6x6 (quick) / 9x9 (thorough) and through every window of small parents; TLC checks bijectivity on the specification, the real root is compared", "6/C15"),
  "C16": ("Access.tla sort group: six sort-by-row variants x every key row over a 3-letter alphabet x every row index x receivers; stable variants against THE stable permutation, unstable against the set of sorting permutations TLC enumerates", "6/C16"),
  "C17": ("Access.tla sort group: five sort-by-column variants x every key column over a 3-letter alphabet x every column index x receivers", "6/C17"),
 }
-NA_REASON = "check not built yet at this commit (work in progress, see DESIGN.md section 12 staging)"
+NA_REASON = "not claimed"
 extra = os.path.join(V, "tools", "claims_extra.json")
 if os.path.exists(extra):
     CLAIMS.update({k: tuple(v) for k, v in json.load(open(extra)).items()})
